@@ -13,6 +13,7 @@ import (
 	"github.com/git-lfs/git-lfs/v3/tasklog"
 	"github.com/git-lfs/git-lfs/v3/tools"
 	"github.com/git-lfs/git-lfs/v3/tr"
+	"github.com/git-lfs/git-lfs/v3/verifhook"
 )
 
 type Platform int
@@ -239,7 +240,7 @@ func CopyFileContents(cfg *config.Configuration, src string, dst string) error {
 		return err
 	}
 	defer in.Close()
-	_, err = io.Copy(tmp, in)
+	_, err = io.Copy(tmp, verifhook.WrapReader(in))
 	if err != nil {
 		return err
 	}
@@ -247,6 +248,7 @@ func CopyFileContents(cfg *config.Configuration, src string, dst string) error {
 	if err != nil {
 		return err
 	}
+	verifhook.Crash("copyfile.rename")
 	return os.Rename(tmp.Name(), dst)
 }
 
@@ -254,6 +256,7 @@ func LinkOrCopy(cfg *config.Configuration, src string, dst string) error {
 	if src == dst {
 		return nil
 	}
+	verifhook.Crash("link")
 	err := os.Link(src, dst)
 	if err == nil {
 		return err
